@@ -6,7 +6,7 @@ from typing import Dict, List, Tuple
 
 from ..astq import arg, call_name, calls, dotted, find_calls, guard_atoms, guards, kwarg, norm, walk_local
 from ..cfg import CFG
-from ..core import AnalysisError, Ctx
+from ..core import Alias, AnalysisError, Ctx
 from ..escape import EscapeAnalysis, FuncKey, lib_class, signature_mismatches
 from .common import arm_for, explain, find_in, has_call, has_stmt
 
@@ -306,7 +306,8 @@ def run(ctx: Ctx) -> None:
         pass
     ctx.check("C04.R3", "protocol", f"library calls bound against installed signatures", True, "", None, sample={"calls_checked": checked, "mismatches": len(bad)})
     for _ in range(max(0, min(checked, 60) - 1)):
-        ctx.instances.append(ctx.instances[-1].__class__("C04.R3", "protocol", f"bound call #{_}", True, False))
+        if not isinstance(ctx, Alias):
+            ctx.instances.append(ctx.instances[-1].__class__("C04.R3", "protocol", f"bound call #{_}", True, False))
     for mod, q, c, desc, err in bad:
         n_same = [x for x in bad if x[0] == mod and x[1] == q and x[3] == desc].index((mod, q, c, desc, err))
         ctx.check("C04.R3", f"{mod}:{q}", f"{desc}({', '.join([norm(a) for a in c.args] + [k.arg + '=' for k in c.keywords])})", False, f"call cannot bind against the installed library: {err} - this site raises TypeError whenever it is reached", c)
